@@ -394,6 +394,24 @@ func Atoms(b *ssa.BasicBlock) []Atom {
 
 func condAtoms(v ssa.Value, val bool) []Atom {
 	switch x := v.(type) {
+	case *ssa.Phi:
+		// value-context short circuit: `a && b` is phi[false (from a's block), b]; known true => a and b true.
+		// `a || b` is phi[true, b]; known false => a and b false.
+		if (x.Comment == "&&" && val) || (x.Comment == "||" && !val) {
+			var out []Atom
+			for i, e := range x.Edges {
+				if c, isC := e.(*ssa.Const); isC && c.Value != nil {
+					// the short-circuiting operand: the If condition of that predecessor
+					p := x.Block().Preds[i]
+					if ifi, ok := p.Instrs[len(p.Instrs)-1].(*ssa.If); ok {
+						out = append(out, condAtoms(ifi.Cond, val)...)
+					}
+					continue
+				}
+				out = append(out, condAtoms(e, val)...)
+			}
+			return out
+		}
 	case *ssa.UnOp:
 		if x.Op == token.NOT {
 			return condAtoms(x.X, !val)
